@@ -783,6 +783,10 @@ func goCode(root string, unit string) string {
 			[]string{"background", "foreground", "Bold", "Strikethrough", "Underline", "Italic", "Code", "Highlight", "Color", "Red", "Link", "CodeBlock", "QuoteBlock", "LinkBlock", "Header", "Bullet"},
 			[]string{"collapse", "Apply", "Indent", "Pad", "DumbWrap", "Wrap", "lineIsOnlyWhitespace", "Snip"})
 		emit("pub/post.go, pub/actor.go, pub/activity.go, pub/failure.go (String, Preview, Name, Timestamp and what they call), style.Problem, ansi.Scrub", text, errs)
+	case "webfinger":
+		header("Model.GoSem", "Model.GoJson", "Model.GoNet", "Model.GoUrl", "Model.Mime", "Generated.GoObject")
+		text, errs := translateWebfinger(root)
+		emit("client/client.go (ResolveWebfinger, FetchURL)", text, errs)
 	default:
 		b.WriteString("-- unknown unit " + unit + "\n")
 	}
